@@ -68,7 +68,15 @@ def r2_raw_reconstruction(w):
         cons = {'converter': 'convert_raw', 'child': e2._item(g.item), 'paths': len(g.paths)}
         if g.kind == 'RawTrimmed':
             want = 'hardline' if g.item.linebreak else 'space'
-            ok = all([m for m in o.made if m in WS] == [want] for o in g.paths)
+            def ws_of(o):
+                # whitespace made at the site, or the trimmed part handed to a helper that satisfies the Space-leaf contract
+                # (hardline iff the token's own text has a line break, else one space)
+                made = [m for m in o.made if m in WS]
+                for a in o.atoms:
+                    if a[0] == 'conv' and isinstance(a[2], Node) and a[2].tag.startswith('child') and e2.space_leaf_ok(w, a[1]):
+                        made.append(want)
+                return made
+            ok = all(ws_of(o) == [want] for o in g.paths)
             if ok:
                 r.ok(cons, 'exactly %s' % want)
             else:
@@ -193,15 +201,29 @@ def r3_no_transformer_downstream(w):
             if fb is None or fb.crate is not w.core or fid in seen:
                 continue
             seen.add(fid)
-            for bi, t in fb.calls():
-                p = resolved_path(t) or callee_path(t) or ''
+            # calls, and transformers handed on as function values (`.map(str::trim_end)`)
+            uses = [(t['span'], resolved_path(t) or callee_path(t) or '') for bi, t in fb.calls()]
+            from world import iter_operands_stmt
+            for blk in fb.blocks:
+                if blk['cleanup']:
+                    continue
+                ops = [o for st in blk['stmts'] for o in iter_operands_stmt(st)] + (blk['term'].get('args', []) if blk['term']['t'] == 'call' else [])
+                for o in ops:
+                    if o.get('o') == 'const' and 'fn' in o:
+                        uses.append((blk['term']['span'], o['fn']['def']['path']))
+            owner = fb
+            while owner.def_kind == 'Closure' and owner.parent in w.bodies:
+                owner = w.bodies[owner.parent]
+            for span, p in uses:
                 if not TRANSFORM.search(p):
                     continue
                 n += 1
                 m = p.rsplit('::', 1)[-1]
-                r.bad({'fn': fb.short, 'callee': p}, '%s|%s' % (fb.short, m),
+                # keyed by role, not by name or by the closure the call happens to sit in: the same defect under any spelling of the post-processor
+                who = 'post-processor' if owner.id == cb.id else owner.short
+                r.bad({'fn': fb.short, 'callee': p}, '%s|%s' % (who, m),
                       '`%s` is applied in %s to the rendered text, which embeds string literals and raw text: blanks at the end of a line inside a multi-line string or '
-                      'raw block are removed (`"a   \\nb"` loses three blanks)' % (p, fb.short), fb.loc(t['span']))
+                      'raw block are removed (`"a   \\nb"` loses three blanks)' % (p, fb.short), fb.loc(span))
     # direct transformers in the entry itself
     for bi, t in entry.calls():
         p = resolved_path(t) or callee_path(t) or ''
